@@ -100,6 +100,10 @@ func DialContext(ctx context.Context, addr, mycall, password string) (net.Conn, 
 		return nil, err
 	}
 
+	// The login is part of dialing and must not outlive ctx: when ctx is done
+	// (deadline or cancellation), fail all pending and future I/O on conn.
+	stop := context.AfterFunc(ctx, func() { conn.SetDeadline(time.Unix(1, 0)) })
+
 	// Log in to telnet server
 	reader := bufio.NewReader(conn)
 L:
@@ -108,8 +112,12 @@ L:
 		line = strings.TrimSpace(strings.ToLower(line))
 		switch {
 		case err != nil:
+			stop()
 			conn.Close()
-			return nil, fmt.Errorf("Error while logging in: %s", err)
+			if ctx.Err() != nil {
+				err = ctx.Err()
+			}
+			return nil, fmt.Errorf("Error while logging in: %w", err)
 		case strings.HasPrefix(line, "callsign"):
 			fmt.Fprintf(conn, "%s\r", mycall)
 		case strings.HasPrefix(line, "password"):
@@ -118,5 +126,10 @@ L:
 		}
 	}
 
+	if !stop() {
+		// ctx was done before the login completed.
+		conn.Close()
+		return nil, fmt.Errorf("Error while logging in: %w", ctx.Err())
+	}
 	return &Conn{conn, CMSTargetCall, reader}, nil
 }
